@@ -92,6 +92,19 @@ def harness(S, spec):
                 raise KeyError('no firewall plugin')
         mod.plugin_manager = _PM
     _run.newnet.create_newnet = lambda *a, **k: None
+    # directory listing order is file-system dependent: make it a choice
+    # (sorted / reverse sorted) so that replays see the same order
+    import glob as _glob
+    rev = bool(spec['order'] & 1)      # both orders occur across the interleavings
+
+    class _Glob:
+        @staticmethod
+        def glob(pattern, *a, **k):
+            return sorted(_glob.glob(pattern, *a, **k), reverse=rev)
+
+        def __getattr__(self, n):
+            return getattr(_glob, n)
+    endpoints.glob = _Glob()
     # ---- container A: symbolic manifest shape
     eps = []
     used = set()
